@@ -17,7 +17,9 @@ THEOREMS = ["QExPy.Arr.C11_length", "QExPy.Arr.C11_elem", "QExPy.Arr.C11_elem_va
 RULE = ("every binary operator (+ - * / **) with a MeasurementArray on either side and, on the other "
         "side, int / float / measurement / derived quantity / (value,error) pair / list of floats / "
         "list of ints / float ndarray / int ndarray / another MeasurementArray / the same array / a "
-        "derived array; every exported math function (sqrt exp sin..cot, degree variants, asin acos "
+        "derived array / a single quantity that is not independent of the array (an element of it, a "
+        "calculated quantity containing elements of it, a measurement correlated with elements of it, a "
+        "calculated quantity from such a measurement); every exported math function (sqrt exp sin..cot, degree variants, asin acos "
         "atan, one-argument log, log10, unary minus) on arrays, lists, ndarrays, numbers, "
         "quantities; two-argument log over all kind pairs; random compositions of depth 2-4; "
         "lengths 1-8; arrays carry units and names; same-position correlations between two "
@@ -336,6 +338,8 @@ def run_cases(ctx, cases, ref=False):
             dist["repeated-measurement operand:" + ("as many readings as array elements"
                                                     if nr == c["n"] else "another number of readings")] += 1
         for l in c["leaves"]:
+            if l.get("shared"):
+                dist["single operand NOT independent of the array:" + l["shared"]] += 1
             if l.get("ty"):
                 dist["number-type:" + l["ty"]] += 1
             if l.get("ints") and any(l["ints"]) and not all(l["ints"]):
